@@ -365,16 +365,18 @@ def branch_state_table(prog, an, rep):
     if None in names.values():
         return
     atoms = {
-        'empty': '%s.__len__() == 0' % runs,
         'pending': 'self.is_pending(%s)' % runs,
         'queued': 'self.is_queued(%s)' % runs,
     }
-    alt_empty = ['len(%s) == 0' % runs]
-    tests = {src(t.ast) for t in an.test_nodes(f, lambda e: True)}
-    if atoms['empty'] not in tests:
-        for a in alt_empty:
-            if a in tests:
-                atoms['empty'] = a
+
+    def empty(emp):
+        # the spellings of "no run at all"
+        return {'%s.__len__() == 0' % runs: emp, 'len(%s) == 0' % runs: emp,
+                '%s == []' % runs: emp, 'len(%s) < 1' % runs: emp,
+                runs: not emp, 'len(%s)' % runs: not emp,
+                '%s.__len__()' % runs: not emp,
+                'len(%s) > 0' % runs: not emp,
+                'len(%s) >= 1' % runs: not emp}
     rows = 0
     bad = False
     for emp, pen, que, comp, suc in itertools.product((True, False),
@@ -383,9 +385,10 @@ def branch_state_table(prog, an, rep):
             continue       # all([]) is True: infeasible rows
         if suc and not comp:
             continue       # success implies a non-None conclusion
-        env = {atoms['empty']: emp, atoms['pending']: pen,
+        env = {atoms['pending']: pen,
                atoms['queued']: que, names['all_complete']: comp,
                names['all_success']: suc}
+        env.update(empty(emp))
         got = _returns(an, f, c, env)
         if emp:
             want_v = 'NOTSTARTED'
@@ -546,32 +549,6 @@ def state_precedence(prog, an, rep):
 def unwanted_workflows(prog, an, rep):
     R = 'C17.REG.unwanted-workflows'
     f = need_func(an, GH + '.AggregatedWorkflowRuns.remove_unwanted_workflows')
-    # filter(lambda r: r['event'] != 'workflow_dispatch', runs) or the
-    # comprehension [r for r in runs if r['event'] != 'workflow_dispatch']
-    shown = []
-    ok = False
-    for x in walk_local(f.node, include_root=False):
-        if isinstance(x, ast.Call) and src(x.func) == 'filter' and \
-                len(x.args) == 2 and isinstance(x.args[0], ast.Lambda) and \
-                len(x.args[0].args.args) == 1:
-            v_ = x.args[0].args.args[0].arg
-            shown.append(src(x.args[0].body))
-            if cond_equiv(None, x.args[0].body,
-                          "%s['event'] != 'workflow_dispatch'" % v_) and \
-                    src(x.args[1]) == 'self._workflow_runs':
-                ok = True
-        if isinstance(x, ast.ListComp) and len(x.generators) == 1 and \
-                len(x.generators[0].ifs) == 1 and \
-                src(x.elt) == src(x.generators[0].target) and \
-                src(x.generators[0].iter) == 'self._workflow_runs':
-            v_ = src(x.generators[0].target)
-            shown.append(src(x.generators[0].ifs[0]))
-            if cond_equiv(None, x.generators[0].ifs[0],
-                          "%s['event'] != 'workflow_dispatch'" % v_):
-                ok = True
-    rep.evaluated()
-    rep.check(ok, R, f.qname + ': workflow_dispatch runs are filtered out',
-              f.where(), 'the workflow_dispatch filter is %s' % shown)
     # the conclusion ranking: the one dict literal with a 'success' key,
     # bound to a local or written where it is used
     rank = rvar = None
@@ -604,36 +581,117 @@ def unwanted_workflows(prog, an, rep):
     c = an.cfg(f)
     # best[<run>['workflow_id']] = <run>: stored only for a new workflow id
     # or a strictly better conclusion
-    loops = [n for n in walk_local(f.node, include_root=False)
-             if isinstance(n, ast.For) and isinstance(n.target, ast.Name)
-             and src(n.iter) == 'self._workflow_runs']
+    pm = parent_map(f.node)
     stores = []
-    for lp in loops:
-        run = lp.target.id
-        for st in walk_local(lp, include_root=False):
-            if isinstance(st, ast.Assign) and len(st.targets) == 1 and \
-                    isinstance(st.targets[0], ast.Subscript) and \
-                    isinstance(st.targets[0].value, ast.Name) and \
-                    src(st.value) == run and \
-                    canon(f, st.targets[0].slice) == \
+    for st in walk_local(f.node, include_root=False):
+        if isinstance(st, ast.Assign) and len(st.targets) == 1 and \
+                isinstance(st.targets[0], ast.Subscript) and \
+                isinstance(st.targets[0].value, ast.Name) and \
+                isinstance(st.value, ast.Name):
+            run = st.value.id
+            lp = pm.get(st)
+            while lp is not None and not (
+                    isinstance(lp, ast.For) and
+                    isinstance(lp.target, ast.Name) and
+                    lp.target.id == run):
+                lp = pm.get(lp)
+            if lp is not None and canon(f, st.targets[0].slice) == \
                     ctext(f, "%s['workflow_id']" % run):
-                stores.append((st, st.targets[0].value.id, run))
+                stores.append((st, st.targets[0].value.id, run, lp))
     rep.evaluated()
     rep.check(len(stores) == 1, R, f.qname + ': best run kept per '
               'workflow_id', f.where(), '%d stores best[run["workflow_id"]]'
               ' = run' % len(stores))
-    for st, best, run in stores:
-        kid = "%s['workflow_id']" % run
-        gates = cond_branches(an, f, '%s in %s' % (kid, best), False) + \
-            cond_branches(
-                an, f, "%s[%s['conclusion']] > %s[%s[%s]['conclusion']]" % (
-                    rvar, run, rvar, best, kid), True)
-        ok, path = c.must_pass(gates, c.stmt_node[id(st)])
+    DISPATCH = "%s['event'] != 'workflow_dispatch'"
+
+    def filtered(e):
+        """X when e is X with the workflow_dispatch runs taken out (a
+        filter() or a comprehension, with or without list())."""
+        e = substitute_locals(f, e)
+        while isinstance(e, ast.Call) and src(e.func) in ('list', 'tuple') \
+                and len(e.args) == 1 and not e.keywords:
+            e = e.args[0]
+        if isinstance(e, ast.Call) and src(e.func) == 'filter' and \
+                len(e.args) == 2 and isinstance(e.args[0], ast.Lambda) and \
+                len(e.args[0].args.args) == 1 and cond_equiv(
+                    None, e.args[0].body,
+                    DISPATCH % e.args[0].args.args[0].arg):
+            return e.args[1]
+        if isinstance(e, (ast.ListComp, ast.GeneratorExp)) and \
+                len(e.generators) == 1 and e.generators[0].ifs and \
+                src(e.elt) == src(e.generators[0].target) and cond_equiv(
+                    None, ast.BoolOp(op=ast.And(),
+                                     values=list(e.generators[0].ifs))
+                    if len(e.generators[0].ifs) > 1
+                    else e.generators[0].ifs[0],
+                    DISPATCH % src(e.generators[0].target)):
+            return e.generators[0].iter
+        return None
+    for st, best, run, lp in stores:
+        # only runs that were not dispatched by hand compete: the loop runs
+        # over the filtered list, or skips them before the comparison
         rep.evaluated()
-        rep.check(ok and len(gates) >= 2, R, f.qname + ': a run replaces '
+        node = c.stmt_node[id(st)]
+        gates = cond_branches(an, f, DISPATCH % run, True) + cond_branches(
+            an, f, "%s['event'] == 'workflow_dispatch'" % run, False)
+        ok = bool(gates) and c.must_pass(gates, node)[0]
+        how = 'skipped in the loop'
+        if not ok:
+            it = filtered(lp.iter)
+            if it is not None and canon(f, it) == 'self._workflow_runs':
+                ok, how = True, 'loop over the filtered list'
+        if not ok and canon(f, lp.iter) == 'self._workflow_runs':
+            before = []
+            for n in c.nodes.values():
+                if n.kind == 'stmt' and isinstance(n.ast, ast.Assign) and \
+                        any(src(t) == 'self._workflow_runs'
+                            for t in n.ast.targets):
+                    it = filtered(n.ast.value)
+                    if it is not None and \
+                            canon(f, it) == 'self._workflow_runs':
+                        before += c.done_of(n)
+            ok = bool(before) and c.must_pass(before, node)[0]
+            how = 'list filtered before the loop'
+        rep.check(ok, R, f.qname + ': workflow_dispatch runs are filtered '
+                  'out before the best run of a workflow is chosen',
+                  f.where(st), 'a run triggered by workflow_dispatch can '
+                  'take the place of (and hide) the regular run of the same '
+                  'workflow: no filter on event != workflow_dispatch before '
+                  'this store', detail=how if ok else None)
+        kid = "%s['workflow_id']" % run
+        kept = ['%s[%s]' % (best, kid), '%s.get(%s)' % (best, kid),
+                '%s.get(%s, None)' % (best, kid)]
+        gates = cond_branches(an, f, '%s in %s' % (kid, best), False)
+        for k_ in kept[1:]:
+            gates += cond_branches(an, f, '%s is None' % k_, True)
+            gates += cond_branches(an, f, k_, False)
+        better = []
+        for k_ in kept:
+            better += cond_branches(
+                an, f, "%s[%s['conclusion']] > %s[%s['conclusion']]" % (
+                    rvar, run, rvar, k_), True)
+            better += cond_branches(
+                an, f, "%s[%s['conclusion']] < %s[%s['conclusion']]" % (
+                    rvar, k_, rvar, run), True)
+        ok, path = c.must_pass(gates + better, node)
+        rep.evaluated()
+        rep.check(ok and gates and better, R, f.qname + ': a run replaces '
                   'the kept one only if strictly better, per workflow id',
                   f.where(st), 'the kept run can be replaced by one that is '
                   'not strictly better', path=c.describe_path(path))
+    # what the aggregate keeps is the selection
+    outs = [n for n in c.nodes.values() if n.kind == 'stmt' and
+            isinstance(n.ast, ast.Assign) and
+            any(src(t) == 'self._workflow_runs' for t in n.ast.targets) and
+            stores and stores[0][1] in
+            {x.id for x in ast.walk(n.ast.value) if isinstance(x, ast.Name)}]
+    rep.evaluated()
+    rep.check(len(outs) == 1 and canon(None, outs[0].ast.value) in (
+        'list(%s.values())' % stores[0][1],
+        '[c1 for c1 in %s.values()]' % stores[0][1]) if stores else False,
+        R, f.qname + ': the runs kept are the best run of every workflow',
+        f.where(), 'self._workflow_runs is not set to the values of the '
+        'per-workflow selection: %s' % [src(n.ast) for n in outs])
 
 
 def lru_rules(prog, an, rep):
